@@ -230,6 +230,23 @@ def run(prog, rep, tier):
     # that byte indexes a message that no longer exists (panic, nothing printed).
     R211 = rep.rule("R2.11", "insert and remove on the range index build the same range for a message")
     SRp = "s4lib::readers::syslinereader::SyslineReader"
+    # calls to trivial `fn x(&self) -> N { CONST }` helpers (charsz() is 1) are folded to their constant, so that
+    # `fo_end + 1` and `fo_end + self.charsz()` have the same shape
+    _triv = {}
+    for p_, bj in prog.facts.bodies.items():
+        if p_.startswith("s4lib::") and len(bj["blocks"]) == 1:
+            bt = prog.body(p_)
+            if bt.term(0)[0] == "ret":
+                cv = [s_[2][1][2] for s_ in bt.stmts(0) if s_[0] == "=" and s_[1] == [0] and s_[2][0] == "use" and s_[2][1][0] == "k" and isinstance(s_[2][1][2], int) and not isinstance(s_[2][1][2], bool)]
+                if len(cv) == 1:
+                    _triv.setdefault(p_.split("::")[-1], set()).add(cv[0])
+
+    def _fold(sh, _b):
+        if not isinstance(sh, tuple):
+            return sh
+        if sh[0] == "call" and len(_triv.get(sh[1], ())) == 1:
+            return ("k", next(iter(_triv[sh[1]])))
+        return tuple(_fold(x, _b) if isinstance(x, tuple) else x for x in sh)
     shapes = {}
     for fn_, verb in (("::insert_sysline", "insert"), ("::remove_sysline", "remove")):
         fb2 = prog.body(SRp + fn_)
@@ -238,7 +255,7 @@ def run(prog, rep, tier):
                 for x in fb2.origins(c.args[1]):
                     if x[0] == "agg":
                         st_ = fb2.stmts(x[1])[x[2]]
-                        shapes.setdefault(verb, []).append((tuple(fb2.shape(o_) for o_ in st_[2][2]), c.line))
+                        shapes.setdefault(verb, []).append((tuple(_fold(fb2.shape(o_), fb2) for o_ in st_[2][2]), c.line))
     rep.examined(R211, SRp + "|range-index", sample={k_: [str(v_[0]) for v_ in vs] for k_, vs in shapes.items()})
     if not shapes.get("insert") or not shapes.get("remove"):
         raise CheckerError("range index: insert (%d) / remove (%d) sites not recognised" % (len(shapes.get("insert", [])), len(shapes.get("remove", []))))
